@@ -29,6 +29,7 @@ RULE = ('M1: every sequence of <=2 (quick) / <=3 (thorough) AddSegment/RemoveSeg
         'm2-range-list: one day, 2-4 ranges of one comma-separated list in every relative position (disjoint, adjacent, overlapping, nested, identical, nested ending/beginning together, three- and four-level nesting, outer with several inner) x every written order (all permutations up to 3 ranges, 6 of 24 for 4 in the quick tier) x {within the day, across midnight (wrap form or hour >= 24), ending at 24:00} x {one key, weekday + date key sharing the list, a referencing period with included/excluded periods whose lists nest likewise}; '
         'm2-rolling: 48-72 h of the REAL TimePeriod::UpdateTimerHandler() after Start() (5-minute rounds around every local midnight, 15 min - 2 h steps and one stall of 5-9 h in between), the referencing period created (= updated in every round) before, between or after the periods it includes/excludes, those with ranges running past midnight; every round judged at every probe from one hour before the round up to valid_end; '
         'the probes of every calendar case contain both boundaries of every written range (+-1 s) and the middle of every gap between consecutive boundaries - the oracle recomputes that list from the written ranges and refuses to decide otherwise; '
+        'm2-restart-changed-definition: three periods run (real Start() + real UpdateTimerHandler rounds), then every period goes through tp_reload (state attributes through the state-file record and the real ConfigObject::RestoreObject into a NEW object built from an edited definition: own ranges, part of the ranges removed, ranges of a referenced period, exclude / include added / dropped / swapped, prefer_includes flipped, unchanged as control), the real Start() on the restored state 0 s - 11 h after the last round, 2-60 more rounds; every answer judged against the NEW definition; m2-directed-restart-valid-end: the witness of finding restart-keeps-valid-end, its control and the reverse edit. '
         'm2-parse-*: 126 hand-made corner strings and mutated printed strings through config validation (accepted/rejected, code against the parser model), odd but accepted strings evaluated. '
         'non-trivial = at least one observed state with a segment and both inside and outside probes; distinct = distinct script text')
 TRUSTED = ['model: coq/Tp/TpModel.v (transcription of timeperiod.cpp 41-301), coq/Tp/TpCal.v (transcription of legacytimeperiod.cpp '
@@ -528,6 +529,7 @@ def gen_m2(rnd, tier):
     cases += gen_parse_families(random.Random(rnd.random()), tier)
     cases += directed_m2()
     cases += directed_rolling()
+    cases += gen_restart(random.Random(rnd.random()), tier)
     return cases
 
 
@@ -818,6 +820,183 @@ def gen_rolling(rnd, tier):
         out.append({'lines': lines, 'tags': {'family': 'm2-rolling', 'zone': zn, 'roll_order': where, 'roll_shape': shape, 'roll_keys': keymode,
                                             'roll_rounds': rounds, 'roll_hours': span // 3600, 'roll_crosses_transition': crosses,
                                             'transition_window': crosses}})
+    return out
+
+
+# ----------------------------------------------------------------------------- M2: restart with an edited definition
+
+RESTART_CHANGES = ('unchanged', 'ranges', 'ranges-part-removed', 'referenced-ranges', 'exclude-added', 'exclude-dropped',
+                   'include-added', 'include-dropped', 'prefer-flipped', 'include-exclude-swapped')
+
+
+def gen_restart(rnd, tier):
+    """the daemon is restarted with an edited configuration while the state file still covers the present: three periods a, b, c
+    run (Start + the real UpdateTimerHandler rounds), then EVERY period goes through tp_reload - state attributes through the
+    state-file record and the real ConfigObject::RestoreObject into a new object built from the new definition (ranges of a,
+    ranges of a referenced period, includes / excludes of a added / dropped / swapped, prefer_includes flipped; unchanged as the
+    control) -, the real Start() runs on what was restored, then the timer rounds go on.  Every answer after the restart is
+    judged against the NEW definition at instants derived from the written ranges of both definitions."""
+    out = []
+    n = {'quick': 40, 'thorough': 200, 'search': 80}.get(tier, 40)
+    for i in range(n):
+        zn = ZONES[i % 4]
+        dst = zn != 'UTC'
+        crosses = False
+        if dst and rnd.random() < 0.25:
+            at = rnd.choice(anchors(zn))
+            day0 = (at + off_at(zn, at - 1)) // 86400 - rnd.choice((1, 2))
+            crosses = True
+        else:
+            day0 = T0 // 86400 + rnd.randint(3, 700)
+        n0 = mk_local(zn, day0 * 86400) + rnd.choice((10 * 3600 + 17 * 60, 23 * 3600 + 40 * 60, 7 * 60, 12 * 3600, rnd.randrange(0, 86400)))
+
+        def tod(lo, hi):
+            return safe_tod(rnd, zn, lo, hi)
+
+        def work():
+            b = tod(6 * 3600, 10 * 3600)
+            return [(b, tod(15 * 3600, 20 * 3600))]
+
+        def split():
+            b1 = tod(7 * 3600, 9 * 3600)
+            e1 = tod(11 * 3600, 12 * 3600)
+            return [(b1, e1), (tod(e1 + 600, 14 * 3600), tod(16 * 3600, 86400))]
+
+        def night():
+            return [(tod(18 * 3600, 86399), tod(0, 3599) if dst and rnd.random() < 0.5 else tod(10800, 6 * 3600))]
+
+        def early():
+            b = tod(0, 1800) if dst else tod(0, 2 * 3600)
+            return [(b, tod(b + 600, 3599) if dst else tod(b + 600, 5 * 3600))]
+
+        def late_hours():                                     # written with an hour >= 24: ends on the following day
+            b = tod(20 * 3600, 23 * 3600)
+            return [(b, 86400 + (tod(10800, 5 * 3600) if dst else tod(1800, 5 * 3600)))]
+
+        def lunch():
+            b = tod(11 * 3600, 12 * 3600 + 1800)
+            return [(b, tod(b + 600, 14 * 3600))]
+
+        def any_list():
+            return rnd.choice((work, split, night, early, late_hours, lunch, lambda: [(0, 86400)], lambda: work() + early(), lambda: split() + night()))()
+
+        old = {'prefer': rnd.randint(0, 1), 'inc': [], 'exc': [], 'a': any_list(), 'b': rnd.choice((lunch, night, early, late_hours))(),
+               'c': rnd.choice((lunch, night, work, early))()}
+        change = RESTART_CHANGES[i % len(RESTART_CHANGES)] if rnd.random() < 0.8 else rnd.choice(RESTART_CHANGES)
+        r = rnd.random()
+        if change in ('exclude-dropped', 'prefer-flipped', 'include-exclude-swapped') or (change not in ('exclude-added',) and r < 0.5):
+            old['exc'] = ['b']
+        if change in ('include-dropped', 'prefer-flipped', 'include-exclude-swapped') or (change not in ('include-added',) and rnd.random() < 0.4):
+            old['inc'] = ['c']
+        if change == 'exclude-dropped' and not old['a']:
+            old['a'] = work()
+        new = {k: (list(v) if isinstance(v, list) else v) for k, v in old.items()}
+        if change == 'ranges':
+            while new['a'] == old['a']:
+                new['a'] = any_list()
+        elif change == 'ranges-part-removed':
+            old['a'] = rnd.choice((lambda: work() + early(), lambda: split() + night(), lambda: work() + late_hours()))()
+            new['a'] = old['a'][:-1]
+        elif change == 'referenced-ranges':
+            which = rnd.choice([x for x in ('b', 'c') if x in old['inc'] + old['exc']] or ['b'])
+            if which == 'b' and 'b' not in old['exc']:
+                old['exc'] = new['exc'] = ['b']
+            while new[which] == old[which]:
+                new[which] = rnd.choice((lunch, night, early, late_hours, work))()
+        elif change == 'exclude-added':
+            new['exc'] = ['b']
+        elif change == 'exclude-dropped':
+            new['exc'] = []
+        elif change == 'include-added':
+            new['inc'] = ['c']
+        elif change == 'include-dropped':
+            new['inc'] = []
+        elif change == 'prefer-flipped':
+            new['prefer'] = 1 - old['prefer']
+            old['c'] = new['c'] = rnd.choice((work, split))()          # included and excluded periods overlap: the flag decides
+            old['b'] = new['b'] = lunch()
+        elif change == 'include-exclude-swapped':
+            new['inc'], new['exc'] = ['b'], ['c']
+        D0 = datetime.date(1970, 1, 1) + datetime.timedelta(days=day0 - 2)
+        D1 = D0 + datetime.timedelta(days=12)
+        s_, a_ = daydef(('d', D0.year, D0.month, D0.day), ('d', D1.year, D1.month, D1.day), 1)
+        names = ['a', 'b', 'c']
+
+        def new_line(op, nm, cfg):
+            if nm == 'a':
+                return '%s name=a prefer=%d inc=%s exc=%s' % (op, cfg['prefer'], ','.join(cfg['inc']) or '-', ','.join(cfg['exc']) or '-')
+            return '%s name=%s' % (op, nm)
+
+        body = []
+        order = list(names)
+        rnd.shuffle(order)
+        body += [new_line('tp_new', nm, old) for nm in order]
+        body += [range_line(nm, s_, a_, old[nm], rnd) for nm in names]
+        body += ['tp_start name=%s' % nm for nm in (order if rnd.random() < 0.7 else reversed(order))]
+        t = n0
+        before = rnd.choice((0, 1, 3, 12, 40, 90))              # timer rounds before the restart
+        rounds = 0
+        for _ in range(before):
+            l = (t + off_at(zn, t)) % 86400
+            t += 300 if (l < 1500 or l > 86400 - 1500) else rnd.choice((300, 900, 1800, 3600, 3600, 7200))
+            body += ['now %d' % t, 'tp_timer']
+            rounds += 1
+        gap = rnd.choice((0, 1, 60, 300, 1800, 4 * 3600, 11 * 3600))
+        t += gap
+        body.append('now %d' % t)
+        t_restart = t
+        order2 = list(names)
+        rnd.shuffle(order2)
+        body += [new_line('tp_reload', nm, new) for nm in order2]
+        body += [range_line(nm, s_, a_, new[nm], rnd) for nm in names]
+        starts = list(order2 if rnd.random() < 0.7 else reversed(order2))
+        if change == 'referenced-ranges':
+            # a referenced period whose OWN definition changed is started before the period that refers to it: started after it,
+            # the referring period would merge the referenced period's restored segments - those of its old definition - and keep
+            # them (the start-order staleness of finding stale-reference in another guise; outside the rolling theorem, whose
+            # hypothesis is that referenced periods only gain instants; see notes/C08.md, round 4, open items)
+            starts = [which] + [x for x in starts if x != which]
+        body += ['tp_start name=%s' % nm for nm in starts]
+        body.append('tp_now name=a')
+        after = rnd.choice((2, 6, 20, 60))
+        for k in range(after):
+            l = (t + off_at(zn, t)) % 86400
+            t += 300 if (l < 1500 or l > 86400 - 1500 or k < 2) else rnd.choice((300, 900, 1800, 3600, 3600, 7200))
+            body += ['now %d' % t, 'tp_timer']
+            rounds += 1
+            if t < t_restart + 20 * 3600 and rnd.random() < 0.3:
+                body.append('tp_now name=a')
+        all_trs = sum((cfg[nm] for cfg in (old, new) for nm in names), [])
+        lines = ['now %d' % n0, tz_line(zn, n0 - 5 * 86400, t + 9 * 86400),
+                 'tp_pts ' + ','.join(str(x) for x in roll_probes(zn, n0 - 3600, t + 2 * 86400 + 7200, all_trs))] + body
+        out.append({'lines': lines, 'tags': {'family': 'm2-restart-changed-definition', 'zone': zn, 'restart_change': change,
+                                            'restart_rounds_before': before, 'restart_gap': gap, 'restart_rounds_after': after,
+                                            'roll_rounds_restart': rounds, 'transition_window': crosses}})
+    # directed: the restored valid_end outlives the definition that produced it (finding restart-keeps-valid-end).  a = "22:00-02:00",
+    # started at 10:00, four rounds; restart with a = "09:00-17:00,00:30-01:30": Start() computes today and tomorrow, valid_end stays at
+    # 02:00 of the day after tomorrow, the rounds go on from there and 00:30-01:30 of that day is never produced: is_inside = false at
+    # the clock, 38 hours after the restart.  The control (definition unchanged) and the reverse edit leave no such stretch.
+    zn = 'UTC'
+    day0 = T0 // 86400 + 10
+    n0 = mk_local(zn, day0 * 86400) + 10 * 3600
+    D0 = datetime.date(1970, 1, 1) + datetime.timedelta(days=day0 - 2)
+    D1 = D0 + datetime.timedelta(days=9)
+    s_, a_ = daydef(('d', D0.year, D0.month, D0.day), ('d', D1.year, D1.month, D1.day), 1)
+    wrap, day = [(22 * 3600, 2 * 3600)], [(9 * 3600, 17 * 3600), (1800, 5400)]
+    for kind, o, nw in (('hole', wrap, day), ('control', wrap, wrap), ('reverse', day, wrap)):
+        lines = ['now %d' % n0, tz_line(zn, n0 - 5 * 86400, n0 + 9 * 86400),
+                 'tp_pts ' + ','.join(str(x) for x in roll_probes(zn, n0 - 3600, n0 + 4 * 86400, o + nw)),
+                 'tp_new name=a', range_line('a', s_, a_, o, None), 'tp_start name=a']
+        t = n0
+        for _ in range(4):
+            t += 1800
+            lines += ['now %d' % t, 'tp_timer']
+        lines += ['tp_reload name=a', range_line('a', s_, a_, nw, None), 'tp_start name=a']
+        while t < n0 + 39 * 3600:
+            t += 1800
+            lines += ['now %d' % t, 'tp_timer']
+        lines.append('tp_now name=a')                                # 01:00 of the day after tomorrow
+        out.append({'lines': lines, 'tags': {'family': 'm2-directed-restart-valid-end', 'zone': zn, 'restart_change': kind}})
     return out
 
 
@@ -1232,6 +1411,8 @@ def classify(case, detail, impl_lines):
         return 'parse'
     if 'violates-C08 stale-reference' in detail:
         return 'stale-reference'
+    if 'violates-C08 restart-keeps-valid-end' in detail:
+        return 'restart-keeps-valid-end'
     if 'violates-C08 rolling' in detail:
         # the judged period includes a period that has includes / excludes of its own: what that one wrongly reported for a
         # round stays (known finding); anything else in a rolling case is not known
@@ -1357,6 +1538,15 @@ def extra_stats(cases, impl):
     mform = collections.Counter(c['tags'].get('month_form') for c in cases if c['tags'].get('family') == 'm2-month-name')
     rl = [c for c in cases if c['tags'].get('family') == 'm2-range-list']
     ro = [c for c in cases if c['tags'].get('family') == 'm2-rolling']
+    rs_ = [c for c in cases if c['tags'].get('family') in ('m2-restart-changed-definition', 'm2-directed-restart-valid-end')]
+
+    def reload_lines(c):
+        # the observation lines of the tp_reload ops of a case (the state RestoreObject put into the new object)
+        outl = [l for l in impl.get(c['id'], []) if not l.startswith(('case', 'end'))]
+        ops = [l for l in c['lines'] if l.split()[0] in ('tp_tz', 'tp_mk', 'tp_parse', 'tp_add', 'tp_rm', 'tp_purge', 'tp_upd', 'tp_start', 'tp_reload', 'tp_now', 'tp_timer')]
+        if any(l.startswith('tp_timer') for l in ops):
+            return [l for l in outl if l.startswith('tp ')]     # a timer prints several lines: count any state line of the case
+        return [o for l, o in zip(ops, outl) if l.startswith('tp_reload')]
     return {'zones': dict(zones), 'windows_on_dst_transition_days': trw,
             'range_list_family': {'cases': len(rl), 'by_configuration': dict(collections.Counter(c['tags']['list_config'] for c in rl)),
                                   'by_variant': dict(collections.Counter(c['tags']['list_variant'] for c in rl)),
@@ -1367,6 +1557,11 @@ def extra_stats(cases, impl):
                                'referencing_period_updated': dict(collections.Counter(c['tags']['roll_order'] for c in ro)),
                                'shapes': dict(collections.Counter(c['tags']['roll_shape'] for c in ro)),
                                'walking_over_a_dst_transition': sum(1 for c in ro if c['tags'].get('roll_crosses_transition'))},
+            'restart_family': {'cases': len(rs_), 'by_change': dict(collections.Counter(c['tags']['restart_change'] for c in rs_)),
+                               'timer_rounds': sum(c['tags'].get('roll_rounds_restart', 0) for c in rs_),
+                               'rounds_before_restart': {str(k): v for k, v in collections.Counter(c['tags'].get('restart_rounds_before', 'directed') for c in rs_).items()},
+                               'seconds_between_last_round_and_restart': {str(k): v for k, v in collections.Counter(c['tags'].get('restart_gap', 'directed') for c in rs_).items()},
+                               'restored_states_with_segments': sum(1 for c in rs_ if any(l.startswith('tp ') and 'segs=-' not in l for l in reload_lines(c)))},
             'compared_only_per_zone': {
                 'what': 'not covered by a theorem and therefore aimed at every transition of every zone that has one: mktime for local times '
                         'inside a skipped / repeated hour (libc primed with the local time two days earlier, against tp_tab_mk); proved only under '
